@@ -33,7 +33,7 @@ ASSUMPTIONS = ["clause 'exactly the most recent port' is judged only when "
                "miss_send_len is what the nexus configures (128); frames "
                "always contain both addresses within it",
                "topologies are loop-free lines; all ports are up"]
-REQUIRED = ["frames", "arrivals_judged", "floods", "known_dst_forwards",
+REQUIRED = ["installed_flows_between_the_same_stations_that_are_for_other_traffic", "frames", "arrivals_judged", "floods", "known_dst_forwards",
             "exact_port_checks", "cached_flow_hits", "filtered_frames",
             "host_moves", "buffers_released", "timeouts_crossed",
             "unbuffered_packet_ins", "bursts", "frames_to_own_source",
@@ -110,6 +110,7 @@ class Net (object):
           src=None if mt["wildcards"] & 4 else bytes(mt["dl_src"]),
           dst=None if mt["wildcards"] & 8 else bytes(mt["dl_dst"]),
           dl_type=None if mt["wildcards"] & 16 else mt["dl_type"],
+          match=mt,
           out=[a["port"] for a in m["actions"] if a["type"] == 0],
           idle=m["idle_timeout"], hard=m["hard_timeout"],
           t0=self.w.clock.now, used=self.w.clock.now))
@@ -258,6 +259,12 @@ def run_case (case, rep):
         if f["in_port"] not in (None, port): continue
         if f["src"] not in (None, s_src) or f["dst"] not in (None, s_dst): continue
         if f["dl_type"] not in (None, OM.extract(fr, port)["dl_type"]): continue
+        # ... all of the flow's match, as OpenFlow 1.0 reads it: a flow
+        # installed for one conversation between two stations (addresses,
+        # protocol, ports) is not a flow for another one between the same two
+        if not OM.matches(f["match"], OM.extract(fr, port)):
+          rep.count("installed_flows_between_the_same_stations_that_are_for_other_traffic")
+          continue
         dead = (f["hard"] and now > f["t0"] + f["hard"] + SLACK) or \
                (f["idle"] and now > f["used"] + f["idle"] + SLACK)
         (stale if dead else live).append(f)
